@@ -144,6 +144,13 @@ def job_backend(asc, cfg=0):
         claims = [lift(fr.df) != RV(dfv), lift(fr.dt) != RV(dtv), z3.Not(z3.And(Tt * RV(dtv) <= L.t, L.t < (Tt + 1) * RV(dtv))),
                   RV(len(fr.ts)) != Tt]
         claims += [lift(fr.ts[i]) != i * RV(dtv) for i in range(len(fr.ts))]
+        # orientation and frequency grid: the flag handed in is the frame's, fch1 is the bottom (ascending) / top channel
+        fmin_w = RV(4096.0) if asc else RV(4096.0) - 2 * RV(dfv)
+        claims += [RV(int(bool(fr.ascending) == bool(asc))) != 1, RV(len(fr.fs)) != 3]
+        # (concrete non-dyadic df: the code's binary64 grid and the exact one differ by rounding; compared to 1e-9 Hz)
+        for j in range(min(3, len(fr.fs))):
+            e = lift(fr.fs[j]) - (fmin_w + j * RV(dfv))
+            claims += [e > RV(1e-9), e < -RV(1e-9)]
         r, m = core.check(pre + leaf.pc + [z3.Or(*claims)], timeout_ms=30000)
         recs.append(q(f"{tag}:leaf{li}", r, tchans=str(T)))
         if r == 'sat':
@@ -538,9 +545,11 @@ def replay_backend(p):
     T = fr.tchans
     dfv = sr / nb / fftl
     dtv = intf / dfv
-    bad = not (fr.df == dfv and fr.dt == dtv and T * dtv <= L < (T + 1) * dtv and len(fr.ts) == T)
+    fmin_w = 4096.0 if p['asc'] else 4096.0 - 2 * dfv
+    bad = not (fr.df == dfv and fr.dt == dtv and T * dtv <= L < (T + 1) * dtv and len(fr.ts) == T and bool(fr.ascending) == bool(p['asc'])
+               and np.allclose(fr.fs, fmin_w + np.arange(3) * dfv, rtol=1e-12))
     hist = backend_params_history(stg.frame)
-    return bad or bool(hist), f"obs_length={L!r}: tchans={T}, df={fr.df}, dt={fr.dt}" + (f"; {hist}" if hist else '')
+    return bad or bool(hist), f"obs_length={L!r}, ascending={p['asc']}: tchans={T}, df={fr.df}, dt={fr.dt}, ascending={fr.ascending}, fs={fr.fs.tolist()}" + (f"; {hist}" if hist else '')
 
 
 def replay_orient(p):
